@@ -26,6 +26,10 @@ ARG_PATHS = ['/', '/a/', '/a/b', '/a/b/', '/a/bc', '/a/b/c', '/a/b/c/']
 TYPES = ['signal', 'method_call', 'method_return', 'error']
 
 
+class _Cancelled(BaseException):
+    """Stands for asyncio.CancelledError / GeneratorExit: not an Exception subclass."""
+
+
 def gen_rule(r, conn_level=False):
     rule = {}
     keys = ['type', 'interface', 'member', 'path', 'path_namespace', 'destination', 'args', 'arg_paths']
@@ -195,6 +199,8 @@ def router_case(ctx, seed, idx):
             b = behaviours.get(k)
             if b == 'raise':
                 raise RuntimeError('callback %d raises' % k)
+            if b == 'raise-base':
+                raise _Cancelled('callback %d raises a BaseException-derived error' % k)
             if b == 'remove-self':
                 if rules[k]['active']:
                     rules[k]['active'] = False
@@ -218,8 +224,10 @@ def router_case(ctx, seed, idx):
         rid = router.addMatch(make_cb(k), **kw)
         rules[k] = {'rule': rule, 'rid': rid, 'active': True}
         b = r.random()
-        if b < 0.15:
+        if b < 0.10:
             behaviours[k] = 'raise'
+        elif b < 0.15:
+            behaviours[k] = 'raise-base'
         elif b < 0.25:
             behaviours[k] = 'remove-self'
         elif b < 0.33 and k > 0:
@@ -259,7 +267,7 @@ def router_case(ctx, seed, idx):
         try:
             router.routeMessage(m)
             crashed = None
-        except Exception as e:
+        except (Exception, _Cancelled) as e:
             crashed = e
         new = events[start:]
         w = {'rules': {k: v['rule'] for k, v in rules.items()}, 'behaviours': {k: repr(b) for k, b in behaviours.items()},
@@ -305,7 +313,7 @@ def router_case(ctx, seed, idx):
                     ctx.report('called-after-removal', 'callback of rule %d ran after another callback removed it' % k,
                                w, case)
                     return
-        if any(behaviours.get(k) == 'raise' for k in called):
+        if any(behaviours.get(k) in ('raise', 'raise-base') for k in called):
             ctx.count('messages_with_raising_callback')
 
 
@@ -331,6 +339,7 @@ def connection_case(ctx, seed, idx):
     rules = {}
     calls = []
     state = {'msg': None}
+    mi_state = [idx]
     serial = [500]
 
     def answer_pending(ok=True):
@@ -351,7 +360,7 @@ def connection_case(ctx, seed, idx):
         def cb(m, k=k):
             calls.append((k, state['msg']))
             if k % 3 == 2:
-                raise RuntimeError('raising callback')
+                raise (RuntimeError if mi_state[0] % 2 else _Cancelled)('raising callback')
         d = conn.addMatch(cb, **kw)
         out = clientfix.Outcome(d)
         texts = [m.body[0] for m in answer_pending() if m.fields.get('member') == 'AddMatch']
